@@ -15,8 +15,11 @@ TRACE = {
  "C09": "the three reservation views, the counter lower bound and the exclusivity of reserved nodes are checked on every state/step",
  "C10": "every state-log segment of every application must follow the documented transition table; completed/idle/terminated rules are state and step invariants",
  "C11": "max-applications gate on every first allocation of an Accepted application; running/allocating counts as state invariants",
+ "C13": "every malformed-request class of the property statement (harness/drive/bad.go, 36 classes: unknown/duplicate/empty ids, unset sub-messages, zero/negative resources, releases of nothing or with an unexpected termination type, updates for unknown nodes / released allocations) is injected in states reached by seeded histories; no panic, no hang, the matching rejection, and for invalid items every ledger exactly unchanged; all ledger invariants keep being evaluated",
  "C16": "every reload step: rejected => nothing observable changes; accepted => nodes/applications/queue totals preserved, new limits/properties applied as the abstract configuration says, missing managed queues Draining, draining leaf rejects new applications, queues removed only when empty",
 }
+MODEL = {"C01", "C02", "C03", "C04", "C06", "C09", "C10"}
+MODEL_TXT = ". Design level: the generative specification spec/YuniKorn.tla (explicit node and queue ledgers, reservations, the placeholder swap pipeline, the shim's protocol view, confirmations in any order) is model-checked exhaustively by TLC within the bounds of spec/MC_YK_intended*.cfg against the invariants C01_*..C10_*; TLC-generated environment histories (all bounded behaviours + sampled long ones) are replayed on the real core"
 checks = []
 for p, txt in TRACE.items():
     checks.append({
@@ -25,15 +28,14 @@ for p, txt in TRACE.items():
         "thorough_cmd": "bin/check %s thorough" % p,
         "evidence_file": "/verif/evidence/%s.json" % p,
         "replay_cmd_template": "bin/check %s --replay {path}" % p,
-        "engine": "trace-validation",
+        "engine": "model+trace-validation" if p in MODEL else "trace-validation",
         "technique": "TLA+ trace validation with TLC (spec/YKTrace.tla over spec/YKState.tla) of step-by-step executions of the real core",
-        "level_claimed": {"category": "exploration", "text": txt + ". Exploration level: histories are seeded samples (quick ~15k, thorough ~500k validated steps), every step of every history is judged by the specification.", "design_ref": "DESIGN.md section 6 (" + p + ")"},
+        "level_claimed": {"category": "model_checking" if p in MODEL else "exploration", "text": txt + (MODEL_TXT if p in MODEL else "") + ". Conformance: histories are seeded samples (quick ~15k, thorough ~500k validated steps), every step of every history is judged by the specification.", "design_ref": "DESIGN.md section 6 (" + p + ")"},
         "level_note": "trusted: the projection harness/drive/project.go (exported getters, REST DAOs, build-tagged export shims), TLC's evaluation of YKTrace.tla, the sequential driver (one SI request or one scheduling cycle per step, quiescent after each step). Known findings are exempted only by the narrow shape predicates listed in KNOWN_FINDINGS.json.",
     })
 NA = {
  "C05": "check under construction in this revision (usage invariants exist in YKTrace.tla; the limit-enforcement step check and the UpdateConfig lock-step replay are not registered yet)",
  "C12": "check under construction in this revision (restart operation of the harness not registered yet)",
- "C13": "check under construction in this revision (malformed-request profile not registered yet)",
  "C14": "check under construction in this revision (concurrent mode not registered yet)",
  "C15": "check under construction in this revision", "C17": "check under construction in this revision", "C18": "check under construction in this revision",
  "C19": "check under construction in this revision", "C20": "check under construction in this revision",
@@ -44,6 +46,7 @@ m = {
  "hooks": {"guard": "verif (Go build tag)", "enable": "go build -tags verif (bin/build builds the harness module against /repo's working tree with the tag on)",
            "baseline_off_cmd": "bin/baseline_off", "source_commits": hook_commits, "add_only": True},
  "engines": [
+   {"name": "model+trace-validation", "path": "/verif/vlib/modelgen.py", "serves_properties": sorted(MODEL), "kind_free_text": "TLC exhaustive model checking of spec/YuniKorn.tla (MC_YK*.cfg) and TLC-generated tests replayed through the harness and validated step by step"},
    {"name": "trace-validation", "path": "/verif/vlib/tracecheck.py", "serves_properties": sorted(TRACE), "kind_free_text": "Go harness (harness/) drives the real ClusterContext synchronously and logs NDJSON; TLC validates every step against spec/YKTrace.tla"},
  ],
  "checks": checks,
